@@ -225,10 +225,19 @@ impl Check for C14 {
         if i % 7 == 3 && !force_kind && between.iter().all(|b| b.is_none()) {
             let mut qr = r.split("source-read-error");
             let k = qr.range(1, n - 1);
-            procs[k].faults.push(crate::interpose::FaultSpec {
-                at: crate::interpose::FaultAt::PathOp { suffix: ".rs".into(), op: if qr.chance(1, 2) { Op::OpenR } else { Op::Read }, nth: qr.below(4) as usize },
-                kind: crate::interpose::FaultKind::Err(if qr.chance(1, 2) { libc::EIO } else { libc::EACCES }),
-            });
+            // ... or cannot list one of the directories it walks
+            let at = if qr.chance(1, 3) {
+                // (a directory of the PROJECT: not being able to list the output directory is a reason
+                // to regenerate, like an unreadable record)
+                crate::interpose::FaultAt::PathOp {
+                    suffix: qr.pick(&["/src-tauri", "/src-tauri/src", "/src-tauri/src", "/commands", "/models", "/util", "/deep", "/events", "/bulk"]).to_string(),
+                    op: Op::OpenDir,
+                    nth: 0,
+                }
+            } else {
+                crate::interpose::FaultAt::PathOp { suffix: ".rs".into(), op: if qr.chance(1, 2) { Op::OpenR } else { Op::Read }, nth: qr.below(4) as usize }
+            };
+            procs[k].faults.push(crate::interpose::FaultSpec { at, kind: crate::interpose::FaultKind::Err(if qr.chance(1, 2) { libc::EIO } else { libc::EACCES }) });
         }
         let mut fr = r.split("force");
         // the force matrix is walked systematically: (cache state) x (force source) x (setup);
